@@ -156,7 +156,7 @@ fn directed_case(ctx: &Ctx, ch: &mut Ch) -> Outcome {
 }
 
 pub fn def(tier: Tier) -> CheckDef {
-    let rounds = tier.pick(6, 100);
+    let rounds = tier.pick(30, 300);
     CheckDef {
         id: "C02",
         level: "exploration",
@@ -167,6 +167,7 @@ pub fn def(tier: Tier) -> CheckDef {
         ],
         idle_limit_s: 120,
         needs_cli: false,
+        fuzz: None,
         parts: vec![
             Part {
                 name: "generated",
@@ -174,16 +175,16 @@ pub fn def(tier: Tier) -> CheckDef {
                 run: Box::new(|ctx, r| ctx.prop("generated", r, 400, 600, generated_case)),
                 replay: Some(Box::new(|ctx, inp| match inp {
                     ReplayInput::Choices(c) => generated_case(ctx, &mut Ch::new(c)),
-                    ReplayInput::Text(_) => Err(Failure::new("this part replays from choices", "")),
+                    _ => Err(Failure::new("this part replays from choices", "")),
                 })),
             },
             Part {
                 name: "directed",
-                rounds: tier.pick(2, 20),
+                rounds: tier.pick(6, 60),
                 run: Box::new(|ctx, r| ctx.prop("directed", r, 300, 40, directed_case)),
                 replay: Some(Box::new(|ctx, inp| match inp {
                     ReplayInput::Choices(c) => directed_case(ctx, &mut Ch::new(c)),
-                    ReplayInput::Text(_) => Err(Failure::new("this part replays from choices", "")),
+                    _ => Err(Failure::new("this part replays from choices", "")),
                 })),
             },
         ],
